@@ -61,6 +61,28 @@ func (w *World) oracleOnBind(p *PodInfo, m *simkube.Mutation) {
 	if w.armed("C08") && p.App != nil && len(p.Ranges) > 0 {
 		w.oracleC08Bind(p)
 	}
+	if w.armed("C09") {
+		for _, ip := range p.IPs {
+			// an administrator's labelled reservation is never handed to a pod
+			if f := w.storeFip(ip); f != nil && f.Reserved {
+				w.fail("C09.reserved-ip-handed-to-pod", "reserved-ip-handed-to-pod", "pod %s was bound with %s, which an administrator has reserved (labelled FloatingIP, key %q)", p.key(), ip, f.Key)
+				return
+			}
+			// nor is an IP that is in none of the configurations that may be in force: the oldest candidate is the version
+			// the tables were last seen to match (they only move forward), the newest the one in the configmap
+			ok := false
+			for i := w.inForceLB; i < len(w.confVers); i++ {
+				if _, in := w.confVers[i][ip]; in {
+					ok = true
+				}
+			}
+			if !ok && !w.hostileConfActive {
+				w.fail("C09.deconfigured-ip-handed-to-pod", "deconfigured-ip-handed-to-pod",
+					"pod %s was bound with %s, which is in none of the configuration versions %d..%d that can be in force", p.key(), ip, w.inForceLB, len(w.confVers)-1)
+				return
+			}
+		}
+	}
 	if w.armed("C02") && p.App != nil && w.M.lostReservationIP[p.Key] != "" {
 		if old := w.M.lostReservationIP[p.Key]; w.inNewestConf(old) && !hasStr(p.IPs, old) {
 			w.fail("C02.different-ip-while-reservation-should-exist", "different-ip-while-reservation-should-exist",
@@ -569,6 +591,19 @@ func (w *World) quiescentChecks(tag string, afterResync bool) {
 				"three reload periods after the last change and the last fault the configuration in force is version %d, the configmap holds version %d", idx, len(w.confVers)-1)
 		} else {
 			w.evalMemcheck(tag)
+			if w.S.Viol == nil && w.S.Stats["fault.api.err"] == 0 {
+				// "... and drops exactly the others": once the newest configuration is in force no object is left for an
+				// IP outside it (judged only in runs without an injected API failure: a reload whose delete failed is
+				// documented to retry the deletion at the next change of the configuration only)
+				for _, o := range w.K.List("floatingips", "") {
+					// (an administrator's labelled object for an address outside the configuration is the administrator's business)
+					if f := decodeFip(o); !w.inNewestConf(f.IP) && !f.Reserved {
+						w.fail("C09.deconfigured-allocation-not-dropped", "deconfigured-allocation-not-dropped",
+							"the newest configuration (version %d) is in force and does not contain %s, yet its FloatingIP object (key %q) still exists", len(w.confVers)-1, f.IP, f.Key)
+						break
+					}
+				}
+			}
 		}
 	}
 	if w.armed("C08") && tag == "q1" {
